@@ -10,5 +10,9 @@ if sys.argv[1]=='add-fixed':
     assert h, grep
     d=[e for e in d if e['id']!=id]
     d.append({"property":prop,"id":id,"status":"fixed","commit":h,"what":what,"fixed":f"fixed: property={prop} {h} {what}"})
+if sys.argv[1]=='add-known':
+    prop, id, sig, sigre, what, witness = sys.argv[2:8]
+    d=[e for e in d if e['id']!=id]
+    d.append({"property":prop,"id":id,"status":"known","what":what,"signature":sig,"sig_re":sigre=='re',"witness":witness})
 json.dump(d, open(p,'w'), indent=1)
 print(len(d),"entries")
